@@ -1,7 +1,7 @@
 (* C17 property theorems.  Nothing but statements closed by `exact`, satisfiability examples and
    Print Assumptions; the statements are pinned in coq/pins/C17.txt. *)
 From Coq Require Import ZArith String List Bool.
-From SV Require Import Core.Syntax Ty.Spec Ty.Model Extracted.TypingC Typing.Model Typing.Proofs.
+From SV Require Import Core.Syntax Ty.Spec Ty.Model Extracted.TypingC Typing.Model Typing.Proofs Typing.OpSound Typing.StmtSound Typing.WellTyped.
 Import ListNotations.
 Open Scope string_scope.
 
@@ -42,10 +42,11 @@ Proof. exact absorbed_denote. Qed.
 (* FULL STATEMENT (DESIGN Appendix A, infer_sound):
      well_scoped p -> solve p = (types, false) -> no error -> exec p = Ok st ->
      forall exported x, denote (types x) (value st x) = true.
-   Reached: soundness of expression typing w.r.t. the pure semantics `peval` for the fragment `frag`
-   (literals, names, not, and, or, conditional expressions), for both the faithful and the repaired rule set.
-   Missing: operators, displays, indexing, calls and comprehensions in the proof (they are in the model and in the
-   tie), statements and defs (whole-module soundness), the store semantics of coq/Core/Sem.v. *)
+   Reached: C17_infer_expr_sound_partial (no side condition: literals, names, not, and, or, conditional expressions);
+   C17_infer_expr_sound_ops below (the operator fragment under `sound_ops`); C17_infer_sound_straightline (modules that are
+   sequences of assignments).  Missing: comprehensions, methods, lambdas and calls of defs in the semantics; control flow
+   (if/for/def bodies), tuple-unpacking targets and augmented assignments at statement level; the store semantics of
+   coq/Core/Sem.v. *)
 Theorem C17_infer_expr_sound_partial : forall fixmul sigs types rho e,
   frag e -> env_ok types rho ->
   forall t v, infer fixmul sigs types e = IOk t -> peval rho e = Some v -> denote t (abs v) = true.
@@ -59,11 +60,120 @@ Theorem C17_infer_expr_sound_refuted :
     env_ok types rho /\ infer false [] types e = IOk t /\ peval rho e = Some v /\ denote t (abs v) = false.
 Proof. exact infer_expr_sound_refuted. Qed.
 
+(* Expression soundness for the OPERATOR FRAGMENT of the pure semantics `peval` (literals, names, list/tuple/dict displays,
+   + - ~ not, the ten arithmetic/bitwise operators on int, + and * on str/list/tuple, all comparisons, == !=, in / not in,
+   and/or/conditional, indexing of list/tuple/dict, slicing of str/list/tuple, calls of the pure builtins len str bool int
+   any all abs min max sorted list), for the checker AS IT IS (fixmul = false) or repaired, whenever the expression
+   satisfies the boolean side condition `sound_ops`, which excludes exactly the three rules refuted below:
+     a * b  where a has an `int` alternative and b is Any;  a[i:j] where a has a fixed-arity tuple alternative;
+     a[i:j] where a has a typing.Iterable alternative;   (and a call must be a call of a builtin, not of a def).
+   `sigs_wf` / `env_wf`: the types of the environment are normalised (`wf_ty`, the invariant of Ty::unions). *)
+Theorem C17_infer_expr_sound_ops : forall fixmul sigs types rho,
+  sigs_wf sigs -> env_wf types -> env_ok types rho ->
+  forall e t v, sound_ops fixmul sigs types e = true ->
+    infer fixmul sigs types e = IOk t -> peval rho e = Some v -> denote t (abs v) = true.
+Proof. exact infer_expr_sound_ops. Qed.
+
+(* every type the checker computes from normalised types is normalised *)
+Theorem C17_infer_wf : forall fixmul sigs types, sigs_wf sigs -> env_wf types ->
+  forall e t, infer fixmul sigs types e = IOk t -> wf_ty t = true.
+Proof. exact infer_wf. Qed.
+
+(* per-operator statements the theorem is assembled from *)
+Theorem C17_bin_op_sound : forall fixmul o ta tb t va vb v,
+  wf_ty ta = true -> wf_ty tb = true -> (o = BMul -> mul_ok fixmul ta tb = true) ->
+  denote ta (abs va) = true -> denote tb (abs vb) = true ->
+  expr_bin_op fixmul o ta tb = IOk t -> bin_sem o va vb = Some v -> denote t (abs v) = true.
+Proof. exact expr_bin_op_sound. Qed.
+Theorem C17_index_sound : forall ta ti t va vi v,
+  wf_ty ta = true -> wf_ty ti = true -> denote ta (abs va) = true -> denote ti (abs vi) = true ->
+  expr_index ta ti = IOk t -> index_sem va vi = Some v -> denote t (abs v) = true.
+Proof. exact index_sound. Qed.
+Theorem C17_slice_sound : forall ta t va lo hi st v,
+  wf_ty ta = true -> slice_ok ta = true -> denote ta (abs va) = true ->
+  union_simple slice_basic ta = IOk t -> slice_sem va lo hi st = Some v -> denote t (abs v) = true.
+Proof. exact slice_sound. Qed.
+Theorem C17_builtin_sound : forall f vs v t,
+  String.eqb f "list" = false -> builtin_ret f = IOk t -> builtin_sem f vs = Some v -> denote t (abs v) = true.
+Proof. exact builtin_sound. Qed.
+
+(* The three excluded rules are REFUTED by the faithful model (`refutes types rho e t v`: the environment is normalised and
+   holds values of its types, the checker commits to t for e, e evaluates to v, and v is not in t):
+   - `3 * s`, s: Any  is typed `float | int`, the value is "aaa"                       (known finding unsound:int-mul-any)
+   - `t[0:1]`, t: (int, str) keeps the type (int, str), the value is (1,)             (known finding unsound:tuple-slice-keeps-arity)
+   - `x[0:1]`, x: str | typing.Iterable is typed `str`, the value of [1, 2][0:1] is [1]   (NEW: typecheck_union_simple drops the
+     Iterable alternative because expr_slice_basic has no rule for it, although lists and tuples are Iterable and sliceable) *)
+Theorem C17_refuted_int_mul_any :
+  refutes [("s", IOk TAny)] [("s", PStr "a")] (EBin BMul (EInt 3) (EVar "s")) int_or_float (PStr "aaa").
+Proof. exact refuted_int_mul_any. Qed.
+Theorem C17_refuted_tuple_slice :
+  refutes [("t", IOk (TyTuple [tint; tstr]))] [("t", PTuple [PInt 1; PStr "a"])]
+          (ESlice (EVar "t") (Some (EInt 0)) (Some (EInt 1)) None) (TyTuple [tint; tstr]) (PTuple [PInt 1]).
+Proof. exact refuted_tuple_slice. Qed.
+Theorem C17_refuted_iterable_slice :
+  refutes [("x", IOk (TUnion [tstr; TIter]))] [("x", PList [PInt 1; PInt 2])]
+          (ESlice (EVar "x") (Some (EInt 0)) (Some (EInt 1)) None) tstr (PList [PInt 1]).
+Proof. exact refuted_iterable_slice. Qed.
+Theorem C17_sound_ops_rejects_witnesses :
+  sound_ops false [] [("s", IOk TAny)] (EBin BMul (EInt 3) (EVar "s")) = false /\
+  sound_ops false [] [("t", IOk (TyTuple [tint; tstr]))] (ESlice (EVar "t") (Some (EInt 0)) (Some (EInt 1)) None) = false /\
+  sound_ops false [] [("x", IOk (TUnion [tstr; TIter]))] (ESlice (EVar "x") (Some (EInt 0)) (Some (EInt 1)) None) = false.
+Proof. exact sound_ops_rejects_witnesses. Qed.
+
+(* Whole-module soundness for STRAIGHT-LINE modules (every statement is `x = e`, executed in order by `run`): if the solver
+   result is unflagged, no assignment gets a diagnostic, and every right-hand side is in the operator fragment, then after
+   the run every binding the checker commits to holds a value of the committed type.  (By C17_solve_post_fixpoint,
+   C17_solve_post_fixpoint_denote, C17_infer_expr_sound_ops and the invariance of normalisation under the union iteration.) *)
+Theorem C17_infer_sound_straightline : forall fixmul sigs prog asg m rho,
+  sigs_wf sigs ->
+  straightline prog = Some asg ->
+  solve fixmul sigs prog = (m, false) ->
+  (forall x e, In (x, e) asg -> sound_ops fixmul sigs m e = true /\ infer fixmul sigs m e <> IErr) ->
+  run asg [] = Some rho ->
+  forall x t v, lookup x m = Some (IOk t) -> lookup x rho = Some v -> denote t (abs v) = true.
+Proof. exact infer_sound_straightline. Qed.
+(* the solver's result for a straight-line module is normalised *)
+Theorem C17_solve_straightline_wf : forall fixmul sigs prog asg m f,
+  sigs_wf sigs -> straightline prog = Some asg -> solve fixmul sigs prog = (m, f) -> env_wf m.
+Proof. exact solve_straightline_wf. Qed.
+
 (* FULL STATEMENT (welltyped_no_error): generated_by_rules p -> errors (typecheck p) = [].
-   Reached: no diagnostic on the fragment `frag` when the environment holds no erroneous binding. *)
+   Reached: C17_welltyped_no_error_partial (the fragment `frag`, any environment without erroneous bindings) and
+   C17_welltyped_no_error below (expressions derivable by the generator's typing rules).  Missing: the statement level
+   (that the solver's result satisfies the environment hypothesis for every generated program), methods, lambdas, keyword
+   arguments, enumerate/zip/reversed, indexing of tuple displays (a known false-error finding of the real checker). *)
 Theorem C17_welltyped_no_error_partial : forall fixmul sigs types e,
   frag e -> (forall x, lookup x types <> Some IErr) -> infer fixmul sigs types e <> IErr.
 Proof. exact frag_no_error. Qed.
+
+(* Completeness of the model checker on the GENERATOR'S TYPING RULES (`wt G GS e t`, Typing/WellTyped.v: the derivation
+   tools/gen/progs.py Gen.expr follows for "an expression of static type t": literals, names, list/tuple/dict displays,
+   conditional, and/or, not (also over and/or with operands of different types), + - ~, the ten int operators, comparisons,
+   == != at any type, in / not in, str + str, str * int, list + list, list * int, tuple + tuple, list indexing, str/list
+   slicing with int bounds, the builtins len str bool int abs any all min max sorted, list(xs), list(range(..)), calls of the
+   module's defs with defaults, list and dict comprehensions over lists or range(..)):
+   a well-typed expression gets NO DIAGNOSTIC (`infer .. <> IErr`), and the type the checker commits to is compatible with
+   the generator's type (`compatb`: a scalar type is contained or the type is Never; a container type is Any or all its
+   alternatives are that container with compatible components).  Hypotheses: normalised environment and signatures; every
+   name of the generator's scope has no erroneous binding and, if the checker commits, a compatible type; builtins are not
+   shadowed; the signature table agrees with the generator's function types. *)
+Theorem C17_welltyped_no_error : forall fixmul sigs types G GS,
+  sigs_wf sigs -> env_wf types ->
+  (forall x t, lookup x G = Some t ->
+     match lookup x types with Some (IOk T) => compatb t T = true | Some IErr => False | _ => True end) ->
+  (forall f, In f builtin_names -> lookup f sigs = None /\ lookup f types = None) ->
+  (forall f ps n r, lookup f GS = Some (ps, n, r) ->
+     exists s, lookup f sigs = Some s /\ forall2b compatb ps (fs_params s) = true /\ fs_nreq s = n /\ compatb r (fs_ret s) = true) ->
+  forall e t, wt G GS e t ->
+    infer fixmul sigs types e <> IErr /\ (forall T, infer fixmul sigs types e = IOk T -> compatb t T = true).
+Proof. exact welltyped_no_error. Qed.
+
+(* the facts about Ty::unions and intersects the completeness proof rests on *)
+Theorem C17_unions_keep_compat : forall t ts, forallb (compatb t) ts = true -> compatb t (us ts) = true.
+Proof. exact us_compat. Qed.
+Theorem C17_compatible_types_intersect : forall t A B,
+  wf_ty A = true -> wf_ty B = true -> compatb t A = true -> compatb t B = true -> inter B (widen A) = true.
+Proof. exact eq_inter_compat. Qed.
 
 (* ---- the hypotheses are satisfiable on non-trivial states ------------------------------------------ *)
 (* a def with a loop-carried dependency: y = x is typed only in the second pass; the result is unflagged,
@@ -87,3 +197,77 @@ Example C17_example_sound :
 Proof. split; vm_compute; reflexivity. Qed.
 Example C17_example_repaired : infer true [] [("s", IOk TAny)] (EBin BMul (EInt 3) (EVar "s")) = IOk TAny.
 Proof. exact repaired_witness. Qed.
+
+(* the operator theorem applies to a non-trivial expression: every hypothesis holds and the conclusion is computed *)
+Definition ex_types : tmap := [("a", IOk tint); ("l", IOk (TList tint)); ("d", IOk (TDict tstr tint)); ("s", IOk tstr)].
+Definition ex_rho : list (string * pv) :=
+  [("a", PInt 5); ("l", PList [PInt 1; PInt 2; PInt 3]); ("d", PDict [(PStr "k", PInt 7)]); ("s", PStr "hello")].
+Definition ex_expr : expr :=
+  ETuple [EBin BAdd (EIndex (EVar "l") (EUn UNeg (EInt 1))) (EBin BMul (EVar "a") (EIndex (EVar "d") (EStr "k")));
+          ESlice (EVar "s") (Some (EInt 1)) None (Some (EInt 2));
+          EBin BNotIn (EVar "a") (EVar "l");
+          ECall (EVar "list") [EDict [(EVar "s", EBin BMul (EVar "l") (EInt 2))]] [] None None;
+          EBin BAdd (ESlice (EVar "l") None None (Some (EInt (-1)))) (EList [ECall (EVar "len") [EVar "s"] [] None None])].
+Example C17_example_ops :
+  sound_ops false [] ex_types ex_expr = true
+  /\ infer false [] ex_types ex_expr = IOk (TyTuple [tint; tstr; tbool; TList tstr; TList tint])
+  /\ peval ex_rho ex_expr = Some (PTuple [PInt 38; PStr "el"; PBool true; PList [PStr "hello"]; PList [PInt 3; PInt 2; PInt 1; PInt 5]]).
+Proof. repeat split; vm_compute; reflexivity. Qed.
+
+(* a straight-line module: the hypotheses of C17_infer_sound_straightline hold and the run binds all four names *)
+Definition ex_sl : list stmt :=
+  [SAssign 1 (TVar "n") (EInt 3);
+   SAssign 2 (TVar "xs") (EBin BMul (EList [EVar "n"; EInt 4]) (EInt 2));
+   SAssign 3 (TVar "n") (EIf (EVar "xs") (EStr "many") (EVar "n"));
+   SAssign 4 (TVar "p") (ETuple [EIndex (EVar "xs") (EInt 0); EVar "n"])].
+Example C17_example_straightline :
+  exists asg m rho,
+    straightline ex_sl = Some asg /\ solve false [] ex_sl = (m, false) /\ run asg [] = Some rho
+    /\ forallb (fun xe => sound_ops false [] m (snd xe) && negb (ires_eqb (infer false [] m (snd xe)) IErr)) asg = true
+    /\ get m "n" = IOk (TUnion [tint; tstr]) /\ get m "p" = IOk (TUnion [TyTuple [tint; tint]; TyTuple [TUnion [tint; tstr]; TUnion [tint; tstr]]])
+    /\ lookup "p" rho = Some (PTuple [PInt 3; PStr "many"]).
+Proof. do 3 eexists. repeat split; vm_compute; reflexivity. Qed.
+
+(* the completeness theorem applies to a non-trivial expression with a comprehension, a call of a def with a default, a
+   slice, == and list concatenation:  [x + a for x in l if x == a] + f(a * 2, s + "x")[0:1]  *)
+Definition ex_G : genv := [("a", GInt); ("l", GList GInt); ("s", GStr); ("x", GInt)].
+Definition ex_GS : gsigs := [("f", ([GInt; GStr; GBool], 2%nat, GList GInt))].
+Definition ex_wt_types : tmap := [("a", IOk tint); ("l", IOk (TList tint)); ("s", IOk TAny); ("x", IOk tint)].
+Definition ex_wt_sigs : sigmap := [("f", mkSig [tint; TAny; tbool] 2 (TList tint))].
+Definition ex_wt_expr : expr :=
+  EBin BAdd
+    (EListComp (EBin BAdd (EVar "x") (EVar "a")) [CFor (TVar "x") (EVar "l"); CIf (EBin BEq (EVar "x") (EVar "a"))])
+    (ESlice (call1 "f" [EBin BMul (EVar "a") (EInt 2); EBin BAdd (EVar "s") (EStr "x")]) (Some (EInt 0)) (Some (EInt 1)) None).
+Example C17_example_welltyped :
+  wt ex_G ex_GS ex_wt_expr (GList GInt)
+  /\ sigs_wf ex_wt_sigs /\ env_wf ex_wt_types
+  /\ (forall x t, lookup x ex_G = Some t ->
+        match lookup x ex_wt_types with Some (IOk T) => compatb t T = true | Some IErr => False | _ => True end)
+  /\ (forall f, In f builtin_names -> lookup f ex_wt_sigs = None /\ lookup f ex_wt_types = None)
+  /\ (forall f ps n r, lookup f ex_GS = Some (ps, n, r) ->
+        exists s, lookup f ex_wt_sigs = Some s /\ forall2b compatb ps (fs_params s) = true /\ fs_nreq s = n /\ compatb r (fs_ret s) = true)
+  /\ infer false ex_wt_sigs ex_wt_types ex_wt_expr = IOk (TList tint).
+Proof.
+  split; [|split; [|split; [|split; [|split; [|split]]]]].
+  - apply W_list_add.
+    + apply W_listcomp.
+      * constructor; [apply (WC_for ex_G ex_GS _ _ GInt); apply W_var; reflexivity|].
+        constructor; [|constructor]. apply (WC_if ex_G ex_GS _ GBool). apply (W_eq ex_G ex_GS BEq _ _ GInt); [reflexivity | |]; apply W_var; reflexivity.
+      * apply W_arith; [reflexivity | |]; apply W_var; reflexivity.
+    + apply W_slice; [right; eexists; reflexivity | | constructor; constructor | constructor; constructor | constructor].
+      apply (W_call ex_G ex_GS "f" _ [GInt; GStr; GBool] 2%nat (GList GInt) [GInt; GStr] [GBool]); [reflexivity | reflexivity | | simpl; auto].
+      constructor; [|constructor; [|constructor]].
+      * apply W_arith; [reflexivity | apply W_var; reflexivity | constructor].
+      * apply W_str_add; [apply W_var; reflexivity | constructor].
+  - intros f s H. simpl in H. destruct (String.eqb f "f"); inversion H; subst. split; [reflexivity | repeat constructor].
+  - intros x t H. simpl in H.
+    repeat match type of H with (if String.eqb x ?s then _ else _) = _ => destruct (String.eqb x s) end;
+      inversion H; reflexivity.
+  - intros x t H. simpl in H |- *.
+    repeat match type of H with (if String.eqb x ?s then _ else _) = _ => destruct (String.eqb x s) end;
+      inversion H; subst; reflexivity.
+  - intros f Hin. simpl in Hin. repeat (destruct Hin as [<-|Hin]; [split; reflexivity|]). destruct Hin.
+  - intros f ps n r H. simpl in H. destruct (String.eqb f "f") eqn:E; [|discriminate]. inversion H; subst.
+    apply String.eqb_eq in E. subst f. eexists. repeat split; reflexivity.
+  - vm_compute. reflexivity.
+Qed.
